@@ -400,7 +400,7 @@ class Gen:
                 for _k in range(self.n(r, 3)):
                     e.add_out(Output(r.choice(['OnTrigger', 'OnUser1', 'OnMapSpawn']), r.choice(['relay1', '!self', 'a b']),
                                      r.choice(['Trigger', 'FireUser1', 'Kill']), text(r).replace('\x1b', '').replace(',', ';') if comma else text(r),
-                                     r.choice([0.0, 1.0, 0.5, 2.25, 10.0, 0.125]), times=r.choice([-1, 1, 5]), comma_sep=comma))
+                                     r.choice([0.0, 1.0, 0.5, 2.25, 10.0, 0.125, 100.0, 0, 1, 10, 100, 30, 7, True]), times=r.choice([-1, 1, 5, 0, 10]), comma_sep=comma))
             vmf.add_ent(e)
             ents.append(e)
         w['ents'] = vmf
